@@ -3,8 +3,9 @@
    StateSchema.MinBalance, saturating arithmetic from C45) and checkMinBalance /
    transaction / TransactionGroup in model/EvalGroup.v; closed form: model/EvalSpec.v
    (spec_min_balance, bwp).  The resource counters (assets, apps, schema, extra pages, boxes)
-   are fields of the account record; in this version only payments, closes and key
-   registrations change accounts, so the counters vary through the initial states. *)
+   are fields of the account record; asset creation / opt-in / close-out / destroy change the
+   asset counters, the app / schema / box counters vary through the initial states only
+   (application calls are excluded from this version). *)
 From Coq Require Import NArith ZArith List Bool String.
 Import ListNotations.
 From Verif.lib Require Import Term.
